@@ -24,6 +24,19 @@ pub struct GlueAdapter {
 	pub tx: Mutex<Option<Transaction>>,
 	pub peers: Vec<PeerAddr>,
 	pub work: std::path::PathBuf,
+	/// `txhashset_archive_header()` / `txhashset_read()`: the archive this node serves
+	pub arch_hdr: Mutex<Option<BlockHeader>>,
+	pub arch_data: Mutex<Option<Vec<u8>>>,
+	/// the PIBD segments this node serves (`get_*_segment`)
+	pub segs: Mutex<Option<SegStore>>,
+}
+
+#[derive(Clone)]
+pub struct SegStore {
+	pub kernel: Segment<TxKernel>,
+	pub bitmap: (Segment<grin_chain::txhashset::BitmapChunk>, Hash),
+	pub output: (Segment<OutputIdentifier>, Hash),
+	pub rproof: Segment<RangeProof>,
 }
 
 impl GlueAdapter {
@@ -42,9 +55,11 @@ fn addr_txt(a: &PeerAddr) -> String {
 
 impl ChainAdapter for GlueAdapter {
 	fn total_difficulty(&self) -> Result<Difficulty, grin_chain::Error> {
+		self.push("td".into());
 		Ok(Difficulty::from_num(self.td))
 	}
 	fn total_height(&self) -> Result<u64, grin_chain::Error> {
+		self.push("height".into());
 		Ok(self.height)
 	}
 	fn transaction_received(&self, tx: Transaction, stem: bool) -> Result<bool, grin_chain::Error> {
@@ -93,16 +108,30 @@ impl ChainAdapter for GlueAdapter {
 			_ => None,
 		}
 	}
-	fn txhashset_read(&self, _h: Hash) -> Option<TxHashSetRead> {
-		None
+	fn txhashset_read(&self, h: Hash) -> Option<TxHashSetRead> {
+		self.push("tzread".into());
+		let hdr = self.arch_hdr.lock().unwrap().clone();
+		if hdr.map(|x| x.hash()) != Some(h) {
+			return None;
+		}
+		let data = self.arch_data.lock().unwrap().clone()?;
+		let path = self.work.join(format!("served-{}.zip", hex(&h.as_bytes()[..6])));
+		std::fs::write(&path, &data).ok()?;
+		Some(TxHashSetRead { output_index: 0, kernel_index: 0, reader: std::fs::File::open(&path).ok()? })
 	}
 	fn txhashset_archive_header(&self) -> Result<BlockHeader, grin_chain::Error> {
-		Err(grin_chain::Error::Other("no archive".into()))
+		self.push("archhdr".into());
+		match &*self.arch_hdr.lock().unwrap() {
+			Some(h) => Ok(h.clone()),
+			None => Err(grin_chain::Error::Other("no archive".into())),
+		}
 	}
 	fn txhashset_receive_ready(&self) -> bool {
+		self.push("ready".into());
 		self.ready.load(Ordering::SeqCst)
 	}
-	fn txhashset_download_update(&self, _s: chrono::DateTime<Utc>, _d: u64, _t: u64) -> bool {
+	fn txhashset_download_update(&self, _s: chrono::DateTime<Utc>, d: u64, t: u64) -> bool {
+		self.push(format!("dl:{}:{}", d, t));
 		true
 	}
 	fn txhashset_write(&self, h: Hash, mut f: std::fs::File, _p: &PeerInfo) -> Result<bool, grin_chain::Error> {
@@ -115,30 +144,39 @@ impl ChainAdapter for GlueAdapter {
 		self.work.clone()
 	}
 	fn get_tmpfile_pathname(&self, n: String) -> std::path::PathBuf {
+		self.push("tmpfile".into());
 		self.work.join(n)
 	}
 	fn get_kernel_segment(&self, _h: Hash, _i: SegmentIdentifier) -> Result<Segment<TxKernel>, grin_chain::Error> {
-		Err(grin_chain::Error::Other("no segments".into()))
+		self.push("getseg:kernel".into());
+		self.segs.lock().unwrap().as_ref().map(|s| s.kernel.clone()).ok_or_else(|| grin_chain::Error::Other("no segments".into()))
 	}
 	fn get_bitmap_segment(&self, _h: Hash, _i: SegmentIdentifier) -> Result<(Segment<grin_chain::txhashset::BitmapChunk>, Hash), grin_chain::Error> {
-		Err(grin_chain::Error::Other("no segments".into()))
+		self.push("getseg:bitmap".into());
+		self.segs.lock().unwrap().as_ref().map(|s| s.bitmap.clone()).ok_or_else(|| grin_chain::Error::Other("no segments".into()))
 	}
 	fn get_output_segment(&self, _h: Hash, _i: SegmentIdentifier) -> Result<(Segment<OutputIdentifier>, Hash), grin_chain::Error> {
-		Err(grin_chain::Error::Other("no segments".into()))
+		self.push("getseg:output".into());
+		self.segs.lock().unwrap().as_ref().map(|s| s.output.clone()).ok_or_else(|| grin_chain::Error::Other("no segments".into()))
 	}
 	fn get_rangeproof_segment(&self, _h: Hash, _i: SegmentIdentifier) -> Result<Segment<RangeProof>, grin_chain::Error> {
-		Err(grin_chain::Error::Other("no segments".into()))
+		self.push("getseg:rproof".into());
+		self.segs.lock().unwrap().as_ref().map(|s| s.rproof.clone()).ok_or_else(|| grin_chain::Error::Other("no segments".into()))
 	}
 	fn receive_bitmap_segment(&self, _b: Hash, _o: Hash, _s: Segment<grin_chain::txhashset::BitmapChunk>) -> Result<bool, grin_chain::Error> {
+		self.push("seg:bitmap".into());
 		Ok(false)
 	}
 	fn receive_output_segment(&self, _b: Hash, _r: Hash, _s: Segment<OutputIdentifier>) -> Result<bool, grin_chain::Error> {
+		self.push("seg:output".into());
 		Ok(false)
 	}
 	fn receive_rangeproof_segment(&self, _b: Hash, _s: Segment<RangeProof>) -> Result<bool, grin_chain::Error> {
+		self.push("seg:rproof".into());
 		Ok(false)
 	}
 	fn receive_kernel_segment(&self, _b: Hash, _s: Segment<TxKernel>) -> Result<bool, grin_chain::Error> {
+		self.push("seg:kernel".into());
 		Ok(false)
 	}
 }
@@ -245,6 +283,28 @@ impl Node {
 				Err(_) => self.closed = true,
 			}
 		}
+		// a TxHashSetArchive answer is followed by the attachment: exactly the announced number of bytes
+		let mut att_txt = String::new();
+		if let Some(f) = &resp_frame {
+			if f.len() >= 19 && f[2] == Type::TxHashSetArchive as u8 {
+				let mut l = [0u8; 8];
+				l.copy_from_slice(&f[f.len() - 8..]);
+				let mut att = vec![0u8; (u64::from_be_bytes(l) as usize).min(1 << 24)];
+				let _ = self.sock.set_read_timeout(Some(Duration::from_secs(30)));
+				if self.sock.read_exact(&mut att).is_err() {
+					self.closed = true;
+					att_txt = ":att:short".into();
+				} else {
+					att_txt = format!(":att:{}:{}", att.len(), checksum(&att));
+				}
+				// nothing may follow the attachment
+				match read_frame(&mut self.sock, 150) {
+					Ok(Some(_)) => att_txt.push_str(":trailing"),
+					Ok(None) => {}
+					Err(_) => self.closed = true,
+				}
+			}
+		}
 		let log: Vec<String> = self.ad.log.lock().unwrap()[before..].to_vec();
 		cx.line(
 			&format!("codec glue recv {}", what),
@@ -252,7 +312,7 @@ impl Node {
 				"[{}]|{}|closed:{}",
 				log.join(";"),
 				// a compact block is derived from the block with a fresh random nonce: type and length only
-				resp_frame.as_ref().map(|f| if what.starts_with("getcblock") { format!("len:{}:{}", f[2], f.len()) } else { hex(f) }).unwrap_or_else(|| "-".into()),
+				resp_frame.as_ref().map(|f| if what.starts_with("getcblock") { format!("len:{}:{}", f[2], f.len()) } else { format!("{}{}", hex(f), att_txt) }).unwrap_or_else(|| "-".into()),
 				if self.closed { 1 } else { 0 }
 			),
 		);
@@ -297,7 +357,7 @@ fn hx(h: Hash) -> String {
 	hex(h.as_bytes())
 }
 
-fn conversation(cx: &mut Lx, work: &std::path::Path, _id: usize, accept: bool, remote_ver: u32, remote_caps: u32) {
+fn conversation(cx: &mut Lx, work: &std::path::Path, _id: usize, accept: bool, remote_ver: u32, remote_caps: u32, segs: Option<SegStore>) {
 	let g = Hash::from_vec(&[7u8; 32]);
 	let ver = remote_ver.min(1000);
 	let (td, height) = (1_000_000 + cx.rng.below(1 << 40), 1 + cx.rng.below(1 << 30));
@@ -313,6 +373,9 @@ fn conversation(cx: &mut Lx, work: &std::path::Path, _id: usize, accept: bool, r
 		tx: Mutex::new(Some(stored_tx.clone())),
 		peers: (0..3).map(|_| gen_addr(&mut cx.rng)).collect(),
 		work: work.to_path_buf(),
+		arch_hdr: Mutex::new(None),
+		arch_data: Mutex::new(None),
+		segs: Mutex::new(None),
 	});
 	let ad2: Arc<GlueAdapter> = ad.clone();
 	let listener = TcpListener::bind("127.0.0.1:0").unwrap();
@@ -391,7 +454,7 @@ fn conversation(cx: &mut Lx, work: &std::path::Path, _id: usize, accept: bool, r
 
 	// --- ping / pong bookkeeping
 	let (ptd, ph) = (cx.rng.below(1 << 50), cx.rng.below(1 << 40));
-	n.recv(cx, &format!("ping {} {}", ptd, ph), &frame_of(Type::Ping, &Ping { total_difficulty: Difficulty::from_num(ptd), height: ph }, pv), 1, true, false);
+	n.recv(cx, &format!("ping {} {}", ptd, ph), &frame_of(Type::Ping, &Ping { total_difficulty: Difficulty::from_num(ptd), height: ph }, pv), 3, true, false);
 	let (ptd, ph) = (cx.rng.below(1 << 50), cx.rng.below(1 << 40));
 	n.recv(cx, &format!("pong {} {}", ptd, ph), &frame_of(Type::Pong, &Pong { total_difficulty: Difficulty::from_num(ptd), height: ph }, pv), 1, false, false);
 	let (std_, sh) = (cx.rng.below(1 << 50), cx.rng.below(1 << 40));
@@ -473,6 +536,82 @@ fn conversation(cx: &mut Lx, work: &std::path::Path, _id: usize, accept: bool, r
 	let loc = Locator { hashes: vec![hash32(&mut cx.rng), hash32(&mut cx.rng)] };
 	n.recv(cx, &format!("getheaders 2 {}", bodies(&hdrs)), &frame_of(Type::GetHeaders, &loc, pv), 1, true, false);
 
+	// --- the remaining arms of Protocol::consume: lists received, the archive request, the PIBD segment pairs
+	let pa_in = PeerAddrs { peers: (0..cx.rng.below(6)).map(|_| gen_addr(&mut cx.rng)).collect() };
+	n.recv(cx, &format!("peeraddrs {}", pa_in.peers.len()), &frame_of(Type::PeerAddrs, &pa_in, pv), 1, false, false);
+	let hs_in = Headers { headers: vec![cx.header(), cx.header()] };
+	n.recv(cx, "headers 2", &frame_of(Type::Headers, &hs_in, pv), 1, false, false);
+	n.recv(cx, "headers 0", &frame_of(Type::Headers, &Headers { headers: vec![] }, pv), 1, false, false);
+	// (headers received in a LIST are not remembered by the TrackingAdapter: they are still sent)
+	send_header(&mut n, cx, &hs_in.headers[0]);
+	let treq = TxHashSetRequest { hash: hash32(&mut cx.rng), height: cx.rng.below(1 << 30) };
+	// no archive header (a chain error passed on by `?`: tolerated, nothing is sent, the connection stays)
+	n.recv(cx, "txhashsetreq 0 0 - []", &frame_of(Type::TxHashSetRequest, &treq, pv), 1, false, false);
+	let ah = cx.header();
+	*n.ad.arch_hdr.lock().unwrap() = Some(ah.clone());
+	n.recv(cx, "txhashsetreq 1 0 - []", &frame_of(Type::TxHashSetRequest, &treq, pv), 2, false, false);
+	let served_len = *cx.rng.pick(&[0usize, 1, 7_999, 8_000, 8_001, 20_000]);
+	let served = cx.rng.bytes(served_len);
+	*n.ad.arch_data.lock().unwrap() = Some(served.clone());
+	let aresp = TxHashSetArchive { height: ah.height, hash: ah.hash(), bytes: served.len() as u64 };
+	n.recv(cx, &format!("txhashsetreq 1 1 {}:{} {}", served.len(), checksum(&served), bodies(&aresp)), &frame_of(Type::TxHashSetRequest, &treq, pv), 2, true, false);
+	cx.stat(&format!("glue: archive served, {} bytes", served.len()));
+
+	let seg_id = SegmentIdentifier { height: cx.rng.below(14) as u8, idx: cx.rng.below(1 << 20) };
+	let bh = hash32(&mut cx.rng);
+	let sreq = SegmentRequest { block_hash: bh, identifier: seg_id };
+	let kinds = [("bitmap", Type::GetOutputBitmapSegment), ("output", Type::GetOutputSegment), ("rproof", Type::GetRangeProofSegment), ("kernel", Type::GetKernelSegment)];
+	// nothing to serve: asked, not answered
+	for (k, t) in kinds.iter() {
+		n.recv(cx, &format!("getseg {} 0 []", k), &frame_of(*t, &sreq, pv), 1, false, false);
+	}
+	if let Some(store) = segs.clone() {
+		*n.ad.segs.lock().unwrap() = Some(store.clone());
+		use grin_p2p::msg::{OutputBitmapSegmentResponse, OutputSegmentResponse, SegmentResponse};
+		let r_bitmap = OutputBitmapSegmentResponse { block_hash: bh, segment: store.bitmap.0.clone().into(), output_root: store.bitmap.1 };
+		let r_output = OutputSegmentResponse { response: SegmentResponse { block_hash: bh, segment: store.output.0.clone() }, output_bitmap_root: store.output.1 };
+		let r_rproof = SegmentResponse { block_hash: bh, segment: store.rproof.clone() };
+		let r_kernel = SegmentResponse { block_hash: bh, segment: store.kernel.clone() };
+		n.recv(cx, &format!("getseg bitmap 1 {}", bodies(&r_bitmap)), &frame_of(Type::GetOutputBitmapSegment, &sreq, pv), 1, true, false);
+		n.recv(cx, &format!("getseg output 1 {}", bodies(&r_output)), &frame_of(Type::GetOutputSegment, &sreq, pv), 1, true, false);
+		n.recv(cx, &format!("getseg rproof 1 {}", bodies(&r_rproof)), &frame_of(Type::GetRangeProofSegment, &sreq, pv), 1, true, false);
+		n.recv(cx, &format!("getseg kernel 1 {}", bodies(&r_kernel)), &frame_of(Type::GetKernelSegment, &sreq, pv), 1, true, false);
+		// the same four objects arriving as responses
+		n.recv(cx, "seg bitmap", &frame_of(Type::OutputBitmapSegment, &r_bitmap, pv), 1, false, false);
+		n.recv(cx, "seg output", &frame_of(Type::OutputSegment, &r_output, pv), 1, false, false);
+		n.recv(cx, "seg rproof", &frame_of(Type::RangeProofSegment, &r_rproof, pv), 1, false, false);
+		n.recv(cx, "seg kernel", &frame_of(Type::KernelSegment, &r_kernel, pv), 1, false, false);
+		cx.stat("glue: four segment kinds served and received");
+	} else {
+		cx.stat("glue: no segment store (payload generator produced no decodable segment)");
+	}
+
+	// --- the remaining `Peer::send_*` wrappers: the type byte and the body at the negotiated version
+	let loc = Locator { hashes: (0..cx.rng.below(5)).map(|_| hash32(&mut cx.rng)).collect() };
+	let r = n.peer.send_header_request(loc.hashes.clone());
+	n.sent(cx, "headerreq", if r.is_ok() { "ok" } else { "err" }, true, &bodies(&loc), Some(sv(&loc, pv)), Type::GetHeaders);
+	let hq = hash32(&mut cx.rng);
+	let r = n.peer.send_tx_request(hq);
+	n.sent(cx, "txreq", if r.is_ok() { "ok" } else { "err" }, true, &bodies(&hq), Some(sv(&hq, pv)), Type::GetTransaction);
+	let hq = hash32(&mut cx.rng);
+	let r = n.peer.send_compact_block_request(hq);
+	n.sent(cx, "cblockreq", if r.is_ok() { "ok" } else { "err" }, true, &bodies(&hq), Some(sv(&hq, pv)), Type::GetCompactBlock);
+	let gp = GetPeerAddrs { capabilities: Capabilities::from_bits_truncate(cx.rng.below(128) as u32) };
+	let r = n.peer.send_peer_request(gp.capabilities);
+	n.sent(cx, "peerreq", if r.is_ok() { "ok" } else { "err" }, true, &bodies(&gp), Some(sv(&gp, pv)), Type::GetPeerAddrs);
+	let sq = SegmentRequest { block_hash: hash32(&mut cx.rng), identifier: SegmentIdentifier { height: cx.rng.below(14) as u8, idx: cx.rng.below(1 << 20) } };
+	let r = n.peer.send_bitmap_segment_request(sq.block_hash, sq.identifier);
+	n.sent(cx, "segreq bitmap", if r.is_ok() { "ok" } else { "err" }, true, &bodies(&sq), Some(sv(&sq, pv)), Type::GetOutputBitmapSegment);
+	let r = n.peer.send_output_segment_request(sq.block_hash, sq.identifier);
+	n.sent(cx, "segreq output", if r.is_ok() { "ok" } else { "err" }, true, &bodies(&sq), Some(sv(&sq, pv)), Type::GetOutputSegment);
+	let r = n.peer.send_rangeproof_segment_request(sq.block_hash, sq.identifier);
+	n.sent(cx, "segreq rproof", if r.is_ok() { "ok" } else { "err" }, true, &bodies(&sq), Some(sv(&sq, pv)), Type::GetRangeProofSegment);
+	let r = n.peer.send_kernel_segment_request(sq.block_hash, sq.identifier);
+	n.sent(cx, "segreq kernel", if r.is_ok() { "ok" } else { "err" }, true, &bodies(&sq), Some(sv(&sq, pv)), Type::GetKernelSegment);
+	let br = BanReason { ban_reason: *cx.rng.pick(&[ReasonForBan::None, ReasonForBan::BadBlock, ReasonForBan::BadCompactBlock, ReasonForBan::BadBlockHeader, ReasonForBan::BadTxHashSet, ReasonForBan::ManualBan, ReasonForBan::FraudHeight, ReasonForBan::BadHandshake]) };
+	let r = n.peer.send_ban_reason(br.ban_reason);
+	n.sent(cx, "banreason", if r.is_ok() { "ok" } else { "err" }, true, &bodies(&br), Some(sv(&br, pv)), Type::BanReason);
+
 	// --- the LRU of received hashes holds MAX_TRACK_SIZE = 30: 30 further hashes push the oldest ones out
 	let ks: Vec<Hash> = (0..30).map(|_| hash32(&mut cx.rng)).collect();
 	for (i, k) in ks.iter().enumerate() {
@@ -497,7 +636,7 @@ fn conversation(cx: &mut Lx, work: &std::path::Path, _id: usize, accept: bool, r
 		let mut f = frame_of(Type::TxHashSetArchive, &arch, pv);
 		f.extend_from_slice(&att);
 		f.extend_from_slice(&frame_of(Type::Ping, &Ping { total_difficulty: Difficulty::from_num(1), height: 2 }, pv));
-		n.recv(cx, &format!("archive {} {} {}", hx(arch.hash), att.len(), checksum(&att)), &f, 0, false, true);
+		n.recv(cx, &format!("archive {} {} {}", hx(arch.hash), att.len(), checksum(&att)), &f, 1, false, true);
 	} else {
 		n.ad.ready.store(true, Ordering::SeqCst);
 		cx.line("codec glue ctl ready 1", "ok");
@@ -507,11 +646,13 @@ fn conversation(cx: &mut Lx, work: &std::path::Path, _id: usize, accept: bool, r
 		n.sent(cx, "txhashsetreq", if r.is_ok() { "ok" } else { "err" }, true, &bodies(&req), Some(sv(&req, pv)), Type::TxHashSetRequest);
 		let mut f = frame_of(Type::TxHashSetArchive, &arch, pv);
 		f.extend_from_slice(&att);
-		n.recv(cx, &format!("archive {} {} {}", hx(arch.hash), att.len(), checksum(&att)), &f, 1, false, false);
+		// ready, dl:0:n, tmpfile, one dl per chunk of <= 48000 bytes, the hand-over of the file
+		let chunks = if att.is_empty() { 1 } else { (att.len() + 47_999) / 48_000 };
+		n.recv(cx, &format!("archive {} {} {}", hx(arch.hash), att.len(), checksum(&att)), &f, 3 + chunks + 1, false, false);
 		// a second archive: the request has been used up
 		let mut f = frame_of(Type::TxHashSetArchive, &arch, pv);
 		f.extend_from_slice(&att);
-		n.recv(cx, &format!("archive {} {} {}", hx(arch.hash), att.len(), checksum(&att)), &f, 0, false, true);
+		n.recv(cx, &format!("archive {} {} {}", hx(arch.hash), att.len(), checksum(&att)), &f, 1, false, true);
 	}
 
 	// --- a banned peer is told nothing and hung up on; a BanReason ends the connection
@@ -567,13 +708,29 @@ impl Lx {
 	}
 }
 
+/// one decodable segment of every kind, taken from the payload generator of the `payload` run
+fn seg_store(cx: &mut Ctx) -> Option<SegStore> {
+	use grin_p2p::msg::{OutputBitmapSegmentResponse, OutputSegmentResponse, SegmentResponse};
+	let frames = ext::payload_frames(cx, 1000);
+	let body = |name: &str| frames.iter().find(|(n, _, _)| n == name).map(|(_, f, _)| f[11..].to_vec());
+	fn de<T: ser::Readable>(b: &[u8]) -> Option<T> {
+		ser::deserialize(&mut &b[..], ProtocolVersion(1000), DeserializationMode::default()).ok()
+	}
+	let k: SegmentResponse<TxKernel> = de(&body("KernelSegment")?)?;
+	let o: OutputSegmentResponse = de(&body("OutputSegment")?)?;
+	let r: SegmentResponse<RangeProof> = de(&body("RangeProofSegment")?)?;
+	let b: OutputBitmapSegmentResponse = de(&body("OutputBitmapSegment")?)?;
+	Some(SegStore { kernel: k.segment, bitmap: (b.segment.into_segment().ok()?, b.output_root), output: (o.response.segment, o.output_bitmap_root), rproof: r.segment })
+}
+
 pub fn glue(cx: &mut Ctx, work: &std::path::Path) {
 	// (direction, remote version, remote capabilities): TX_KERNEL_HASH = 8
 	let mut plan: Vec<(bool, u32, u32)> = vec![(true, 1000, 0), (true, 2, 15), (false, 1, 8), (false, 3, 7), (true, 1001, 0x7f)];
 	if cx.thorough {
 		plan.extend_from_slice(&[(true, 1, 0), (true, 3, 8), (false, 2, 0), (false, 1000, 15), (false, u32::MAX, 0), (true, 0, 8)]);
 	}
-	const NEED: usize = 8;
+	const NEED: usize = 12;
+	let segs = seg_store(cx);
 	while cx.pool.len() < NEED * plan.len() {
 		let h = gen_header(&mut cx.rng);
 		cx.pool.push(h);
@@ -584,10 +741,11 @@ pub fn glue(cx: &mut Ctx, work: &std::path::Path) {
 		.map(|(i, (accept, rv, caps))| {
 			let mut lx = Lx { rng: Rng::new(cx.rng.next()), recs: vec![], fails: 0, stats: vec![], headers: cx.pool[i * NEED..(i + 1) * NEED].to_vec() };
 			let (accept, rv, caps, work) = (*accept, *rv, *caps, work.join(format!("glue-{}", i)));
+			let segs = segs.clone();
 			std::thread::spawn(move || {
 				global::set_local_chain_type(ChainTypes::AutomatedTesting);
 				let _ = std::fs::create_dir_all(&work);
-				conversation(&mut lx, &work, i, accept, rv, caps);
+				conversation(&mut lx, &work, i, accept, rv, caps, segs);
 				lx
 			})
 		})
